@@ -121,7 +121,8 @@ fn txt_rt(be: Be, form: &str, kind: Kind, s: &str, sd: bool) -> R {
         "key" => with_kind!(kind, K => rt!(KeyText<V, K>, |t: &KeyText<V, K>| Some(t.as_raw_bytes().to_vec()))),
         "id" => with_kind!(kind, K => rt!(KeyId<V, K>, |t: &KeyId<V, K>| Some(t.as_bytes().to_vec()))),
         "pie" => with_sealing_kind!(kind, K => rt!(PieWrappedKey<V, K>, |_t: &PieWrappedKey<V, K>| None), else Err("bad-op".into())),
-        "pw" => with_sealing_kind!(kind, K => rt!(PasswordWrappedKey<V, K>, |_t: &PasswordWrappedKey<V, K>| None), else Err("bad-op".into())),
+        // every accessor of a parsed value is exercised too (a panic in one of them is caught by the caller's catch_unwind)
+        "pw" => with_sealing_kind!(kind, K => rt!(PasswordWrappedKey<V, K>, |t: &PasswordWrappedKey<V, K>| { let _ = t.params(); None }), else Err("bad-op".into())),
         "seal" => rt!(SealedKey<V>, |_t: &SealedKey<V>| None),
         _ => Err("bad-op".into()),
     })
